@@ -1021,4 +1021,194 @@ theorem forEachService_subset {p : Proj} (nd : (keys p.services).Nodup) {names :
   | root _ hk => exact hk
   | step _ e _ => exact edge_target_mem e
 
+/-! ## the fuel of the walk is never exhausted -/
+
+def unseen (svcs : AL Svc) (seen : List String) : Nat := ((keys svcs).filter (fun k => k ∉ seen)).length
+
+theorem unseen_mono {svcs : AL Svc} {seen seen' : List String} (h : ∀ x ∈ seen, x ∈ seen') :
+    unseen svcs seen' ≤ unseen svcs seen := by
+  unfold unseen
+  have : (keys svcs).filter (fun k => decide (k ∉ seen')) =
+      ((keys svcs).filter (fun k => decide (k ∉ seen))).filter (fun k => decide (k ∉ seen')) := by
+    rw [List.filter_filter]
+    apply List.filter_congr
+    intro x _
+    by_cases a : x ∈ seen'
+    · simp [a]
+    · have : x ∉ seen := fun c => a (h x c)
+      simp [a, this]
+  rw [this]
+  exact List.length_filter_le _ _
+
+theorem unseen_cons_lt {svcs : AL Svc} {seen : List String} {n : String} (hk : n ∈ keys svcs) (hn : n ∉ seen) :
+    unseen svcs (n :: seen) < unseen svcs seen := by
+  unfold unseen
+  have : (keys svcs).filter (fun k => decide (k ∉ n :: seen)) =
+      ((keys svcs).filter (fun k => decide (k ∉ seen))).filter (fun k => decide (k ≠ n)) := by
+    rw [List.filter_filter]
+    apply List.filter_congr
+    intro x _
+    by_cases a : x = n <;> by_cases b : x ∈ seen <;> simp [a, b]
+  rw [this]
+  apply List.length_filter_lt_length_iff_exists.2
+  exact ⟨n, List.mem_filter.2 ⟨hk, by simpa using hn⟩, by simp⟩
+
+theorem loop_fuel {svcs : AL Svc} {pol : Policy} {rec : List String → AL Dep → List String → Walk} (F : Nat)
+    (hf : ∀ ns d seen, unseen svcs seen < F → rec ns d seen ≠ .outOfFuel)
+    (hm : ∀ ns d seen r, rec ns d seen = .ok r → ∀ x ∈ seen, x ∈ r) :
+    ∀ ns seen, unseen svcs seen ≤ F → walkLoop rec svcs pol ns seen ≠ .outOfFuel := by
+  intro ns
+  induction ns with
+  | nil => intro seen _ h; simp [walkLoop] at h
+  | cons n ns ih =>
+    intro seen hle
+    unfold walkLoop
+    cases hs : lookup n svcs with
+    | none => simpa only [hs] using ih seen hle
+    | some s =>
+      simp only []
+      by_cases hseen : n ∈ seen
+      · simpa only [hseen, if_true] using ih seen hle
+      · have lt := unseen_cons_lt (keys_of_lookup hs) hseen
+        simp only [hseen, if_false]
+        by_cases hd : (nextOf svcs pol n s).isEmpty = true
+        · simpa only [hd, if_true] using ih (n :: seen) (by omega)
+        · simp only [hd, Bool.false_eq_true, if_false]
+          cases hr : rec (keys (nextOf svcs pol n s)) (nextOf svcs pol n s) (n :: seen) with
+          | noSuchService => simp
+          | outOfFuel => exact absurd hr (hf _ _ _ (by omega))
+          | ok seen2 =>
+            simp only []
+            have := unseen_mono (svcs := svcs) (hm _ _ _ _ hr)
+            exact ih seen2 (by omega)
+
+theorem walk_fuel {svcs : AL Svc} (nd : (keys svcs).Nodup) (pol : Policy) :
+    ∀ fuel names parent seen, unseen svcs seen < fuel → walk svcs pol fuel names parent seen ≠ .outOfFuel := by
+  intro fuel
+  induction fuel with
+  | zero => intro _ _ _ h; omega
+  | succ f ih =>
+    intro names parent seen hlt
+    unfold walk
+    simp only []
+    by_cases hf : (if names.isEmpty then keys svcs else names).any (missingFatal svcs parent) = true
+    · rw [if_pos hf]; simp
+    · rw [if_neg hf]
+      exact loop_fuel f (fun ns d seen h => ih ns d seen h)
+        (fun ns d seen r hr => (walk_post nd pol f ns d seen r hr).mono) _ _ (by omega)
+
+theorem forEachService_fuel {p : Proj} (nd : (keys p.services).Nodup) (names : List String) (pol : Policy) :
+    forEachService p names pol ≠ .outOfFuel := by
+  apply walk_fuel nd
+  unfold unseen
+  have := List.length_filter_le (fun k => decide (k ∉ ([] : List String))) (keys p.services)
+  simp only [keys, List.length_map] at this ⊢
+  omega
+
+/-! ## selection: the result against the spec -/
+
+theorem mem_nonSelected {set : List String} {l : AL Svc} {x : String} :
+    x ∈ nonSelected set l ↔ x ∈ keys l ∧ x ∉ set := by
+  unfold nonSelected
+  simp only [List.mem_map, List.mem_filter, decide_eq_true_eq, mem_keys]
+  constructor
+  · rintro ⟨⟨k, v⟩, ⟨hm, hs⟩, rfl⟩; exact ⟨⟨v, hm⟩, hs⟩
+  · rintro ⟨⟨v, hm⟩, hs⟩; exact ⟨(x, v), ⟨hm, hs⟩, rfl⟩
+
+theorem mem_keys_selectedPruned {set : List String} {l : AL Svc} {x : String} :
+    x ∈ keys (selectedPruned set l) ↔ x ∈ keys l ∧ x ∈ set := by
+  rw [keys_selectedPruned, mem_keys_filter, mem_keys]
+  simp only [decide_eq_true_eq]
+  constructor
+  · rintro ⟨v, hm, hs⟩; exact ⟨⟨v, hm⟩, hs⟩
+  · rintro ⟨⟨v, hm⟩, hs⟩; exact ⟨v, hm, hs⟩
+
+theorem mem_selectedPruned {set : List String} {l : AL Svc} {kv : String × Svc} (h : kv ∈ selectedPruned set l) :
+    ∃ s, (kv.1, s) ∈ l ∧ kv.1 ∈ set ∧ kv.2 = pruneDeps set s := by
+  unfold selectedPruned at h
+  simp only [List.mem_map, List.mem_filter, decide_eq_true_eq] at h
+  obtain ⟨⟨k, s⟩, ⟨hm, hs⟩, rfl⟩ := h
+  exact ⟨s, hm, hs, rfl⟩
+
+theorem svcLe_pruneDeps {s : Svc} (nd : (keys s.deps).Nodup) (set : List String) : SvcLe s (pruneDeps set s) := by
+  refine ⟨rfl, fun kv hkv => ?_⟩
+  simp only [pruneDeps, List.mem_filter] at hkv
+  exact lookup_of_mem nd hkv.1
+
+section
+variable {p : Proj} (h : Partition p) {set : List String} (hsub : ∀ x ∈ set, x ∈ keys p.services)
+include h hsub
+
+theorem selectResult_partition : Partition (selectResult p set) := by
+  have hr := withServicesDisabled_partition h (nonSelected set p.services)
+  refine ⟨?_, hr.2.1, fun k hk hd => ?_⟩
+  · show (keys (selectedPruned set p.services)).Nodup
+    rw [keys_selectedPruned]; exact nodup_filter h.1
+  · have hk' : k ∈ keys (selectedPruned set p.services) := hk
+    rw [mem_keys_selectedPruned] at hk'
+    have hd' : k ∈ keys (withServicesDisabled p (nonSelected set p.services)).disabled := hd
+    rw [mem_keys_withServicesDisabled_disabled] at hd'
+    rcases hd' with a | ⟨a, _⟩
+    · exact h.2.2 k hk'.1 a
+    · exact (mem_nonSelected.1 a).2 hk'.2
+
+theorem selectResult_carried (w : SvcWF p) : Carried p (selectResult p set) := by
+  intro k
+  have hc := (withServicesDisabled_inv h w (nonSelected set p.services)).2.2 k
+  have fq : find (selectResult p set) k =
+      match lookup k (selectedPruned set p.services) with
+      | some s => some s
+      | none => lookup k (withServicesDisabled p (nonSelected set p.services)).disabled := rfl
+  rw [fq, lookup_selectedPruned h.1]
+  by_cases hk : k ∈ set
+  · obtain ⟨s, hs⟩ := Option.isSome_iff_exists.1 (lookup_isSome.2 (hsub k hk))
+    have fp : find p k = some s := by unfold find; rw [hs]
+    simp only [hk, if_true, hs, Option.map_some, fp, optRel]
+    exact svcLe_pruneDeps (svcWF_of_find w fp) set
+  · simp only [hk, if_false]
+    have : lookup k (withServicesDisabled p (nonSelected set p.services)).services = none := by
+      rw [lookup_withServicesDisabled_services]
+      split
+      · rfl
+      · rename_i hn
+        have : k ∉ keys p.services := fun c => hn (mem_nonSelected.2 ⟨c, hk⟩)
+        rw [lookup_eq_none.2 this]; rfl
+    unfold find at hc
+    rw [this] at hc
+    exact hc
+
+theorem selectResult_spec : SelectSpec p set (selectResult p set) := by
+  refine ⟨⟨fun x hx => ?_, fun x hx => ?_⟩, fun kv hkv d hd => ?_, fun kv hkv => ?_, fun kv hkv => ?_, ?_⟩
+  · exact (mem_keys_selectedPruned.1 hx).2
+  · exact mem_keys_selectedPruned.2 ⟨hsub x hx, hx⟩
+  · obtain ⟨s, _, _, e⟩ := mem_selectedPruned hkv
+    rw [e] at hd
+    obtain ⟨v, hv⟩ := mem_keys.1 hd
+    simp only [pruneDeps, List.mem_filter, decide_eq_true_eq] at hv
+    exact mem_keys_selectedPruned.2 ⟨hsub d hv.2, hv.2⟩
+  · obtain ⟨s, hm, _, e⟩ := mem_selectedPruned hkv
+    rw [lookup_of_mem h.1 hm, e]
+    rfl
+  · have hk : kv.1 ∉ keys p.services := fun c => h.2.2 _ c (mem_keys_of_mem hkv)
+    show lookup kv.1 (withServicesDisabled p _).disabled = some kv.2
+    rw [lookup_withServicesDisabled_disabled_old _ hk]
+    exact lookup_of_mem h.2.1 hkv
+  · exact withServicesDisabled_profiles p _
+
+end
+
+theorem selectSpec_congr {p q : Proj} {S S' : List String} (e : SameSet S S') (h : SelectSpec p S q) :
+    SelectSpec p S' q := by
+  have fe : ∀ l : AL Dep, l.filter (fun d => decide (d.1 ∈ S)) = l.filter (fun d => decide (d.1 ∈ S')) := by
+    intro l; apply List.filter_congr; intro d _
+    by_cases a : d.1 ∈ S
+    · simp [a, e.1 _ a]
+    · have : d.1 ∉ S' := fun c => a (e.2 _ c)
+      simp [a, this]
+  refine ⟨⟨fun x hx => e.1 _ (h.1.1 x hx), fun x hx => h.1.2 x (e.2 _ hx)⟩, h.2.1, fun kv hkv => ?_, h.2.2.2.1, h.2.2.2.2⟩
+  have := h.2.2.1 kv hkv
+  cases hs : lookup kv.1 p.services with
+  | none => simp [hs, sat] at this
+  | some s => simp only [hs, sat] at this ⊢; rw [this, fe]
+
 end CV.Sel
